@@ -317,6 +317,9 @@ def run(tier, seed):
         plans.append({"threads": ["T7", "T8"], "gran": "line", "bound": 1, "whole": True, "warm": True})
         plans.append({"threads": ["T9", "T11"], "gran": "call", "bound": 1, "whole": True, "warm": True})
         plans.append({"threads": ["T9", "T11"], "gran": "line", "bound": 1, "whole": True, "warm": True})
+        # 4 and 8 concurrent pipelines (the statement speaks of 2-8): every single preemption among 4, every start order of 8
+        plans.append({"threads": ["T1", "T2", "T3", "T4"], "gran": "call", "bound": 1, "whole": False})
+        plans.append({"threads": ["T1", "T2", "T3", "T4", "T5", "T6", "T1", "T3"], "gran": "call", "bound": 0, "whole": False})
         # cheap plans first: a wall-budget cap then cuts the largest bound-2 plan, never the bound-1 coverage
         plans.sort(key=lambda pl: (pl["bound"], pl["gran"] == "call" and pl["bound"] == 2))
     else:
@@ -338,6 +341,8 @@ def run(tier, seed):
             plans.append({"threads": pair, "gran": "line", "bound": 1, "whole": True, "warm": True})
         for tri in (["T1", "T2", "T3"],):
             plans.append({"threads": tri, "gran": "call", "bound": 2, "whole": False})
+        plans.append({"threads": ["T1", "T2", "T3", "T4"], "gran": "call", "bound": 1, "whole": True})
+        plans.append({"threads": ["T1", "T2", "T3", "T4", "T5", "T6", "T1", "T3"], "gran": "call", "bound": 1, "whole": False})
     r.rule = ("(a) 5 frameworks x 2 layouts in a fresh worker thread; (b) all schedules with <= bound preemptions for each plan (thread tuple, "
               "granularity, bound): quick 3 pairs (either thread may start) at call granularity bound 2 + line granularity bound 1; thorough all ordered pairs "
               "of 4 bodies, line granularity bound 2, whole-pipeline bodies and opcode granularity (bound 1) on two pairs, one triple; state = tuple of per-thread outcomes; "
